@@ -35,7 +35,7 @@ SCOPE = {
              'recording and integer relu models, tensor/tuple outputs with 0-2 trailing dims, 0-2 per-example args of rank 1-3, '
              'int/negative int/slice/stepped slice/None targets, raw / attribution / hypothetical, int8/float32/float64 X',
     'thorough': 'alphabets 2-5; exhaustive: lengths 1-9 x every window x 3 output kinds x {raw, attr, hyp} plus every negative-end '
-                'spelling for lengths 1-8; 12000 seeded random cases as in quick (lengths 1-30)',
+                'spelling for lengths 1-8; 20000 seeded random cases as in quick (lengths 1-30)',
 }
 
 F64 = torch.float64
@@ -397,7 +397,7 @@ def run(rep):
                     rot += 1
     rep.mark_exhaustive('every negative-end spelling and the default call for lengths 1-%d' % maxL_neg)
     # -- seeded random larger cases
-    n_rand = 12000 if thorough else 600
+    n_rand = 20000 if thorough else 600
     for k in range(n_rand):
         if rep.out_of_time():
             rep.note('time budget reached after %d random cases' % k)
